@@ -90,7 +90,7 @@ public:
       this->chunk.c_chunk = 0;
       this->chunk.c_valid = 0;
       this->chunk.b_ptr = ptr + blStrings->getField(bucket);
-      this->chunk.b_remain = maxcomplength;
+      this->chunk.b_remain = headerBytes();
       this->chunk.str = new uchar[2 * maxlength + kHT];
       this->chunk.strLen = 0;
       this->chunk.advanced = 0;
@@ -155,14 +155,24 @@ protected:
   ChunkScan chunk; //! Chunk scanning structure
   uint offset;     //! Offset value within the current processed byte
 
+  /** Number of bytes that can be read for decoding the header of the
+      current bucket: never beyond the end of the bucket. */
+  inline uint headerBytes() {
+    // (the positional index of this kind closes the last bucket one byte
+    // after the end of the text)
+    size_t available =
+        ptr + blStrings->getField(bucket + 1) - 1 - chunk.b_ptr;
+    return (maxcomplength < available) ? maxcomplength : (uint)available;
+  }
+
   inline void decodeHeader() {
     chunk.strLen = 0;
     chunk.advanced = 0;
     chunk.extracted = 1;
     chunk.c_chunk = 0;
     chunk.c_valid = 0;
-    chunk.b_remain = maxcomplength;
     chunk.b_ptr = ptr + blStrings->getField(bucket);
+    chunk.b_remain = headerBytes();
     bucket++;
     offset = 0;
 
